@@ -23,10 +23,15 @@ def _writer_write(ex, st, self, args, kwargs, node):
     """`writer.write(ufo, featureFile, compiler=self)` of SOME feature writer (any subclass): may rewrite the feature file in any way.  Ghost: the
     call is appended to the compiler's trace (writer, file)"""
     comp = kwargs["compiler"]
-    tr = ex.read_field(st, comp, "trace")
-    ex.write_field(st, comp, "trace", Val(tr.ty, z3.Concat(lift(tr), z3.Unit(lift(self)))), node)
-    tf = ex.read_field(st, comp, "trace_files")
-    ex.write_field(st, comp, "trace_files", Val(tf.ty, z3.Concat(lift(tf), z3.Unit(lift(args[1])))), node)
+    for fld, item in (("trace", self), ("trace_files", args[1])):
+        old = ex.read_field(st, comp, fld)
+        new = z3.Concat(lift(old), z3.Unit(lift(item)))
+        ex.write_field(st, comp, fld, Val(old.ty, new), node)
+        # position-wise consequences of `new == old ++ [item]` (valid facts; they spare the solver a word equation)
+        k = z3.Int(f"c17_k_{fld}")
+        st.assume(z3.Length(new) == z3.Length(lift(old)) + 1)
+        st.assume(new[z3.Length(lift(old))] == lift(item))
+        st.assume(z3.ForAll([k], z3.Implies(z3.And(k >= 0, k < z3.Length(lift(old))), new[k] == lift(old)[k]), patterns=[new[k]]))
     for cn in (FEAFILE, NODE):
         arr = ex.field_array(st, cn, "statements")
         st.heap[(cn, "statements")] = z3.Const(fresh(T.INT, "w").decl().name() + f"_H_{cn}_statements", arr.sort())
